@@ -25,7 +25,7 @@ Import ListNotations.
 Open Scope Z_scope.
 
 (* ---------------- results ---------------- *)
-Inductive err := EFormat (* StructureFormatError *) | EKey (* KeyError leaves P_cif *) | EUnsupported (* outside the model *).
+Inductive err := EFormat (* StructureFormatError *) | EEscapes (* an exception P_cif does not translate *) | EUnsupported (* outside the model *).
 Inductive res (A : Type) := Ok (a : A) | Err (e : err).
 Arguments Ok {A} _. Arguments Err {A} _.
 Definition bind {A B} (m : res A) (f : A -> res B) : res B := match m with Ok a => f a | Err e => Err e end.
@@ -79,6 +79,9 @@ Definition lookup_setter (item : string) : setter :=
   | Some fn => match assoc_str fn setter_bodies with Some s => s | None => ignore_setter end
   | None => ignore_setter
   end.
+
+(* an exception of this class inside _parseCifBlock: translated by _parseCifDataSource or not *)
+Definition raised (exc : string) : err := if existsb (String.eqb exc) caught_errors then EFormat else EEscapes.
 
 Definition numeric_target (t : target) : bool :=
   match t with TFract _ | TCartn _ | TUisoequiv | TOccupancy | TUij _ => true | _ => false end.
@@ -171,7 +174,7 @@ Definition run_row (a : ratom) (r : list (setter * val)) : ratom := fold_left st
 Definition is_bad (p : setter * val) : bool := match snd p with VBad => true | _ => false end.
 Definition is_spec (p : setter * val) : bool := match snd p with VSpecial => true | _ => false end.
 Definition row_status (r : list (setter * val)) : option err :=
-  if existsb is_spec r then Some EUnsupported else if existsb is_bad r then Some EFormat else None.
+  if existsb is_spec r then Some EUnsupported else if existsb is_bad r then Some (raised "ValueError") else None.
 
 (* ---------------- the two loops ---------------- *)
 Definition dict (A : Type) := list (string * A).
@@ -212,7 +215,7 @@ Definition aniso_row (sb : pstate * bool) (lab : string) (r : list (setter * val
   if stopped then Ok sb
   else if String.eqb lab "?" then Ok (st, true)
   else match dict_get (ps_index st) lab with
-       | None => Err EKey
+       | None => Err (raised "KeyError")
        | Some idx =>
            match nth_error (ps_atoms st) idx with
            | None => Err EUnsupported
@@ -252,7 +255,7 @@ Fixpoint cell_list (c : list (option string)) : res (list T) :=
       | LFnum d => bind (cell_list r) (fun l => Ok (dec_T d :: l))
       | LFdefault => bind (cell_list r) (fun l => Ok (t0 O :: l))
       | LFspecial => Err EUnsupported
-      | LFerr => Err EFormat
+      | LFerr => Err (raised "ValueError")
       end
   end.
 Definition cell_numbers (c : list (option string)) : res (option (list T)) :=
@@ -272,7 +275,7 @@ Fixpoint parse_ops (l : list string) : res (list symop) :=
   | [] => Ok []
   | s :: r =>
       match get_symop s with
-      | None => Err (match the_symop_reader with SRNumeric => EFormat | SREval => EUnsupported end)
+      | None => Err (match the_symop_reader with SRNumeric => raised "ValueError" | SREval => EUnsupported end)
       | Some p => match to_symop p with
                   | None => Err EUnsupported
                   | Some o => bind (parse_ops r) (fun os => Ok (o :: os))
